@@ -89,6 +89,15 @@ Theorem C15_inverse : forall x,
 Proof. intros x. exact (conj i_inverse_zero (fm_inverse x)). Qed.
 Print Assumptions C15_inverse.
 
+(* Sqrt (Tonelli-Shanks as coded, on Montgomery representatives): whenever the loop branch
+   returns a root its square is the input, for EVERY input (no primality assumed); the
+   zero branch returns 0.  "nil exactly for non-residues" needs r prime: correspondence. *)
+Theorem C15_sqrt_sound : forall x y, i_sqrt x = Some y ->
+  (i_from_mont y * i_from_mont y) mod qmod = i_from_mont x
+  \/ (y = 0 /\ i_sqn (i_mul (i_exp x sqrt_s_exp) (i_mul x (i_exp x sqrt_s_exp))) 4 = 0).
+Proof. exact i_sqrt_sound. Qed.
+Print Assumptions C15_sqrt_sound.
+
 (* small-constant multiplications, comparison, lexicographic test *)
 Theorem C15_misc : forall c x y, 0 <= c ->
   i_from_mont (i_mul_by c x) = (c * i_from_mont x) mod qmod
